@@ -1430,6 +1430,62 @@ func checkCase(c cliCase) string { return judge(c).msg }
 // ---------------------------------------------------------------------------
 // bookkeeping
 
+// longestIndent: the longest run of blanks or tabs right after a line feed.
+func longestIndent(out []byte) int {
+	best := 0
+	for i := 0; i < len(out); i++ {
+		if out[i] != '\n' {
+			continue
+		}
+		j := i + 1
+		for j < len(out) && (out[j] == ' ' || out[j] == '\t') {
+			j++
+		}
+		best = max(best, j-i-1)
+		i = j - 1
+	}
+	return best
+}
+
+// deepDoc nests leaf d levels deep; kinds[i%len(kinds)] is 'a' (array) or 'o'
+// (object) for level i (0 = outermost); every sib-th level gets a sibling.
+func deepDoc(d int, kinds string, leaf string, sib int) string {
+	cur := leaf
+	for i := d - 1; i >= 0; i-- {
+		withSib := sib > 0 && i%sib == 0
+		if kinds[i%len(kinds)] == 'o' {
+			if withSib {
+				cur = `{"a":` + cur + `,"b":[]}`
+			} else {
+				cur = `{"a":` + cur + `}`
+			}
+		} else if withSib {
+			if i%2 == 0 {
+				cur = `[` + cur + `,1]`
+			} else {
+				cur = `[{},` + cur + `]`
+			}
+		} else {
+			cur = `[` + cur + `]`
+		}
+	}
+	return cur
+}
+
+// deepQuery manufactures the nesting inside the query.
+func deepQuery(d int, shape string, leaf string, sib bool) string {
+	wrap := map[string]string{"arr": `[.]`, "obj": `{a: .}`, "alt": `if $i % 2 == 0 then [.] else {a: .} end`}[shape]
+	if sib {
+		wrap = `if $i % 5 == 0 then [., $i] else ` + wrap + ` end`
+	}
+	return fmt.Sprintf(`reduce range(%d) as $i (%s; %s)`, d, leaf, wrap)
+}
+
+var deepDepths = []int{1, 8, 9, 10, 16, 17, 18, 19, 20, 32, 33, 63, 64, 65, 66, 70, 100, 128, 129, 130, 140, 200, 260}
+var deepLeaves = []string{`0`, `"s"`, `null`, `true`, `1.5`, `[]`, `{}`, `false`, `-0`, `1e2`, `""`, `[1,2]`, `{"k":null}`}
+var deepLayouts = [][]string{{"-c"}, {"--indent", "0"}, {"--indent", "1"}, {"--indent", "3"}, {"--indent", "9"}, {"-r"}, {"-j"}, {"-s"}, {"--indent", "5"},
+	{"--indent", "2"}, {"--indent", "4"}, {"--indent", "6"}, {"--indent", "8"}, {"--tab", "-s"}, {"-e", "--indent=7"}, {"--raw-output0"}}
+
 var longNumberRE = regexp.MustCompile(`-?[0-9][0-9.eE+-]{64,}`)
 
 func hasLongNumber(c cliCase) bool {
@@ -1510,6 +1566,13 @@ func do(sub string, c cliCase) string {
 		}
 		if e.diags > 1 {
 			rec.Class("event/several-diagnostics")
+		}
+		if n := longestIndent(e.stdout); n >= 100 {
+			rec.Class(fmt.Sprintf("deep/longest indentation>=129:%t,layout=%s", n >= 129, layoutClass(o)))
+			if n >= 129 {
+				rec.NT(fmt.Sprintf("%q|%x", c.argv(), evid.Hash(strings.Join(c.Docs, "|"))))
+				rec.Class("nontrivial")
+			}
 		}
 		if hasLongNumber(c) {
 			rec.Class(fmt.Sprintf("numbers/literal of 65 bytes or more,layout=%s,stream=%t,files=%t", layoutClass(o), o.stream, len(c.Files) > 0))
@@ -2241,6 +2304,67 @@ rawSets:
 	if rec.Thorough() {
 		rec.Exhaustive(fmt.Sprintf("-R: %d line lengths x %d contents x %d modes", len(rawLens), len(rawStyles), len(rawModes)), complete)
 	}
+
+	// deeply nested values in every layout: an indentation line is exactly a
+	// line feed and depth x unit
+	complete = true
+	before = rec.Violations()
+	for di, d := range deepDepths {
+		for si, shape := range []string{"arr", "obj", "alt"} {
+			for src := 0; src < 2; src++ {
+				k := di*7 + si*3 + src
+				leaf := deepLeaves[k%len(deepLeaves)]
+				for li, lay := range [][]string{{}, {"--indent", "7"}, {"--tab"}, deepLayouts[k%len(deepLayouts)]} {
+					idx++
+					if !rec.Mine(idx) || rec.Violations() > before+6 {
+						continue
+					}
+					var c cliCase
+					if src == 0 {
+						kinds := map[string]string{"arr": "a", "obj": "o", "alt": "ao"}[shape]
+						c = cliCase{Pre: lay, Text: `.`, Docs: []string{deepDoc(d, kinds, leaf, []int{0, 5, 3}[(di+li)%3])}}
+						if k%4 == 0 {
+							c.Docs = append(c.Docs, `[1,[2]]`)
+						}
+					} else {
+						c = cliCase{Pre: append([]string{"-n"}, lay...), Text: deepQuery(d, shape, leaf, (di+li)%2 == 0), Docs: []string{}}
+					}
+					if msg := do("deep-fixed", c); msg != "" {
+						rec.Direct("deep-fixed", c, "%s", msg)
+						complete = false
+					}
+				}
+			}
+		}
+	}
+	rec.Exhaustive(fmt.Sprintf("deep nesting: %d depths x 3 shapes x 2 sources x 4 layouts", len(deepDepths)), complete)
+
+	rec.Rapid(t, "deep", rec.Scale(300, 20000), func(t *rapid.T) {
+		d := max(1, rapid.SampledFrom(deepDepths).Draw(t, "depth")+rapid.IntRange(-2, 2).Draw(t, "delta"))
+		leaf := rapid.SampledFrom(deepLeaves).Draw(t, "leaf")
+		var c cliCase
+		if rapid.IntRange(0, 3).Draw(t, "source") > 0 {
+			n := rapid.IntRange(1, 7).Draw(t, "period")
+			kinds := make([]byte, n)
+			for i := range kinds {
+				kinds[i] = "ao"[rapid.IntRange(0, 1).Draw(t, "kind")]
+			}
+			c.Docs = []string{deepDoc(d, string(kinds), leaf, rapid.IntRange(0, 6).Draw(t, "sibling"))}
+			if rapid.IntRange(0, 3).Draw(t, "second") == 0 {
+				c.Docs = append(c.Docs, rapid.SampledFrom(simpleDocs).Draw(t, "doc"))
+			}
+			c.Text = rapid.SampledFrom([]string{`.`, `.`, `[.]`, `{a: .}`, `., .`, `.[]?`, `.a?`, `[.[]?]`}).Draw(t, "query")
+			genFlags(t, &c, [9]int{2, 2, 1, 1, 3, 5, 1, 0, 2})
+		} else {
+			c.Docs = []string{}
+			c.Text = deepQuery(d, rapid.SampledFrom([]string{"arr", "obj", "alt"}).Draw(t, "shape"), leaf, rapid.Bool().Draw(t, "sibling"))
+			genFlags(t, &c, [9]int{2, 2, 1, 1, 3, 5, 1, 0, 0})
+			c.Pre = append([]string{"-n"}, c.Pre...)
+		}
+		if msg := do("deep", c); msg != "" {
+			t.Fatalf("%s", rec.Fail("deep", c, "%s", msg))
+		}
+	})
 
 	// long number literals through pass-through queries in every layout
 	passQueries := []string{`.`, `.a`, `.[]`, `[.[]]`, `max`, `{a: .}`, `tojson`, `@text`, `tostring`, `.[0]`, `.a?`, `.[]?`, `[.[]?]`, `[., .]`, `first(.[]?)`, `..`,
